@@ -926,3 +926,52 @@ def check_mapped_sidechain_always_created(ctx, rule, prog):
            'is_protein_group returns the mapped group class for every ATOM-record atom whose '
            '"RES-ATOM" key is in protein_group_mapping (further conditions: %s)' % extra,
            gmod, rets[0] if rets else ipg)
+
+
+def check_element_name_shapes(ctx, rule, prog, only=None):
+    """The element statements of Atom.set_properties, folded (with the checker's
+    own constant evaluator; no propka code runs) over one record per shape in
+    which the four atom-name columns are filled in practice: PDB v3 and v2
+    hydrogen names, remediated four-character names, two-letter symbols in
+    columns 13-14, deuterium.  A hydrogen that is not recognised as one is
+    neither dropped nor rebuilt: it stays, bonded, as a heavy atom, and its
+    parent then counts one bond too many."""
+    import string as _string
+    from sa.consteval import ConstEval, UNKNOWN
+    amod = prog.mod('atom')
+    sp = amod.func('Atom.set_properties')
+    line_p = [a.arg for a in sp.args.args if a.arg != 'self'][0]
+    shapes = {' H  ': 'H', ' HA ': 'H', ' HB2': 'H', 'HH11': 'H', 'HG21': 'H', "HO5'": 'H',
+              'HE21': 'H', 'HE22': 'H', 'HD21': 'H', ' HZ1': 'H', 'HG11': 'H', ' HN ': 'H',
+              '1H  ': 'H', '1HB ': 'H', '1HH1': 'H', '2HD2': 'H', '3HG1': 'H', ' D  ': 'H', '1DD2': 'H',
+              ' N  ': 'N', ' CA ': 'C', ' OXT': 'O', ' SG ': 'S', ' OD1': 'O', 'CA  ': 'Ca', 'FE  ': 'Fe',
+              'ZN  ': 'Zn', 'CL  ': 'Cl', 'NA  ': 'Na', ' C1 ': 'C', " O5'": 'O'}
+    if only is not None:
+        shapes = {k: v for k, v in shapes.items() if v in only}
+    wrong = {}
+    for cols, want in sorted(shapes.items()):
+        rec = 'ATOM      1 %s ALA A   1      11.111  22.222  33.333  1.00 20.00' % cols
+        ce = ConstEval({line_p: rec, 'string.digits': _string.digits})
+        for k_, v_ in _module_string_sets(amod).items():
+            ce.env.setdefault(k_, v_)
+        got = ce.run(sp.body).get('self.element', UNKNOWN)
+        if got != want:
+            wrong[cols] = got if got is not UNKNOWN else '?'
+    el_defs = [s_ for s_ in walk_no_nested(sp) if isinstance(s_, ast.Assign)
+               and norm(s_.targets[0]) == 'self.element']
+    ctx.ob(rule, 'element:name-shapes', not wrong,
+           'the element rule gives the expected symbol for %d shapes of the atom-name columns '
+           '(wrong: %s)' % (len(shapes), wrong), amod, el_defs[0] if el_defs else sp)
+
+
+def _module_string_sets(mod):
+    """Module-level constants that are sets/tuples/lists of strings, as Python
+    values (so that a membership test on them folds)."""
+    from sa.consteval import ConstEval, UNKNOWN
+    res = {}
+    for st in mod.tree.body:
+        if isinstance(st, ast.Assign) and len(st.targets) == 1 and isinstance(st.targets[0], ast.Name):
+            v = ConstEval({}).ev(st.value)
+            if v is not UNKNOWN and isinstance(v, (set, frozenset, tuple, list, str, dict)):
+                res[st.targets[0].id] = v
+    return res
